@@ -88,6 +88,8 @@ def _report_all(ctx: Ctx, rid: str, it: Interp, tag: str) -> int:
 
 
 def _need(v: Any, where: str) -> Any:
+    if isinstance(v, TV) and T.has_q(v.axes):
+        raise AnalysisIncomplete(f'{where}: paths that the flag partition does not separate yield different shapes; the shape-dependent obligation cannot be decided')
     if isinstance(v, T.Top):
         raise AnalysisIncomplete(f'{where}: the abstract value is unknown ({v.why[:160]}); paths that the flag partition does not separate disagree or use an unmodelled operator')
     return v
